@@ -391,6 +391,7 @@ func init() {
 			"(E2.retained-buffer) segment buffers handed to constructors that keep them are allocated per iteration (no shared backing array between segments); (E6.as-trans) AS_TRANS is substituted exactly above 65535 and the raw 2-octet AS of an OPEN is only read through the 4-octet-aware helper. Also: (E4.confed-pair) segment-type switches name both confederation types; (E2.as4path-width-independent) the AS4_PATH codec never forwards the session options to a reader of Use2ByteAS.",
 		Not: "Segment keep-count/merge arithmetic, 255-member boundaries, and the round-trip equality of AS_PATH/AGGREGATOR are value-level and not decided.",
 		Run: func(c *Ctx) {
+			c.ruleRatchets("C14")
 			c.ruleAS4Placement()
 			c.ruleSendSideCopy()
 			c.ruleRetainedBufferFresh("E2.retained-buffer", []string{"internal/pkg/table", "pkg/packet/bgp", "pkg/server", "pkg/apiutil"}, 4)
